@@ -950,6 +950,14 @@ def slice_list_info(ctx, sink, archives):
                     # the detailed table: one row per listed name, the name in the first cell (after C20-r3m3)
                     rows = [l for l in lines if l.startswith("| ")]
                     lines = [l[2:].split(" | ")[0].rstrip() for l in rows[1:]]
+                    # the table shortens long names to their tail behind "..." (utils::truncate_path): such a row stands for the
+                    # one listed name that ends with it
+                    for i, l in enumerate(lines):
+                        if l.startswith("...") and l not in names:
+                            cands = [n for n in names if n.endswith(l[3:]) and n not in lines]
+                            if len(cands) == 1:
+                                lines[i] = cands[0]
+                                res.add_counter("list_long_rows_matched_by_their_shortened_form", 1)
                     res.add_counter("list_long_rows_compared", len(lines))
                 if not names and lines and lines[0].startswith("No files found"):
                     lines = []
